@@ -41,7 +41,6 @@ def _case(den, symb, currency='BTC', tag=''):
 
     limit = MAX_UNITS if symb not in UNPROVED_ABOVE_SAFE else SAFE
     d = {'params': {'n': Int(0, MAX_UNITS)}, 'call': call, 'result_is': result_is, 'pins': {'F-C17-float-' + (symb or 'coin'): pin}, 'requires': requires,
-         'raise_pins': {'F-C17-prefix-da': (ValueError, lambda n: symb == 'da')},
          '__doc__': "value_to_satoshi('<exact decimal> %s%s') is exactly the number of smallest units, for every amount 0..21e14" % (symb, currency)}
     return contract('bitcoinlib.values.value_to_satoshi', case='unit-' + name, props=('C17',))(type('unit_' + name.replace('µ', 'u').replace('-', '_'), (), d))
 
